@@ -3,6 +3,7 @@ import re
 
 from lib.mir import AnchorMissing
 from . import nf_common, nfq
+from .guardlib import gval, comparisons, lt_true, ge_true
 
 MANIFEST = {
     "text": "Typestate and guard-dominance rules over every path of every function of both tree builders (normal forms): a node passed to an append-family call is fresh (just created) or was detached by remove_from_parent earlier on the same path; get_template_contents is called only under a 'this is an HTML template element' test; a doctype is appended only on a path that leaves the initial mode/phase or tests-and-sets a once-flag; attributes reach create_element only through the de-duplicating paths; plus equality of all tree-builder functions with their reviewed normal forms.",
@@ -159,7 +160,7 @@ def r05_6(ctx):
     key, pcs = nfq.cells(ctx, "xml_tree_builder", "::bind_attr_qname")
     ok = False
     for pc in nfq.feasible(pcs):
-        if any(val and "prefix.is_some()" in g for g, val in pc["guards"].items()):
+        if any(val and "prefix matches Some(_)" in g for g, val in pc["guards"].items()):
             names = nfq.names(pc)
             ok = "self.bind_qname" in names and any(a.endswith("check_duplicate_attr") for a in names) and names.index("self.bind_qname") < [i for i, a in enumerate(names) if a.endswith("check_duplicate_attr")][0]
     ctx.ob("R05.6", "xml-duplicate-test-after-binding", ok, "a prefixed attribute is bound first and then checked against the (ns, local) set, unconditionally")
